@@ -140,8 +140,8 @@ type (
 		MaxFileID               int64
 		mu                      sync.RWMutex
 		txIDMu                  sync.Mutex
-		txIDNode                *snowflake.Node  // generates the transaction ids of this DB
-		KeyCount                int // total key number ,include expired, deleted, repeated.
+		txIDNode                *snowflake.Node // generates the transaction ids of this DB
+		KeyCount                int             // total key number ,include expired, deleted, repeated.
 		closed                  bool
 		isMerging               bool
 	}
@@ -356,7 +356,9 @@ func (db *DB) Merge() error {
 				}
 
 			} else {
-				if err == io.EOF {
+				if err == io.EOF || err == ErrCrc {
+					// end of the file, or a record that was being
+					// written when a write failed or the process died
 					break
 				}
 				f.rwManager.Close()
@@ -471,7 +473,10 @@ func (db *DB) getActiveFileWriteOff() (off int64, err error) {
 			db.ActiveFile.ActualSize = off
 
 		} else {
-			if err == io.EOF {
+			if err == io.EOF || err == ErrCrc {
+				// end of the file, or a torn record at its tail (a write
+				// that failed or was cut short by a crash): the valid
+				// data ends here and the next write goes over it.
 				break
 			}
 
@@ -540,7 +545,8 @@ func (db *DB) parseDataFiles(dataFileIds []int) (unconfirmedRecords []*Record, c
 				off += entry.Size()
 
 			} else {
-				if err == io.EOF {
+				if err == io.EOF || err == ErrCrc {
+					// end of the file, or a torn record at its tail
 					break
 				}
 
